@@ -29,5 +29,6 @@ import SwcVerif.Props.C17Front
 #print axioms C17.generated_call_spanning
 #print axioms C17.generated_call_branching_limit
 #print axioms C17.generated_call_prim_minimal
+#print axioms C17.generated_call_prim_attains
 #print axioms C17.generated_call_raises_empty
 #print axioms C17.generated_call_raises_bad_soma
